@@ -7,7 +7,8 @@ from .. import covoracle as co
 
 EPS = np.finfo(float).eps
 RULE = ("cases = (variant plain/exp/time, family full/DTC/Cholesky-latent, kernel tree, data, source of input uncertainty "
-        "{latent std through a factor L*std, scalar sigma, vector sigma, latent std vector}, y_is_mean, inducing points, query "
+        "{latent std through a factor L*std, scalar sigma, vector sigma (one entry per cell; DTC: m<n, m=n, m>n landmarks), latent "
+        "std vector}, y_is_mean, inducing points, query "
         "set {out-of-sample, in-sample rows, duplicated rows}); every case checks symmetry, PSD, diag consistency, "
         "0 <= var <= k(x,x), variance at conditioning points <= regulariser, linear propagation of the input factor, "
         "uncertainty = covariance + mean_covariance, guards, and compares all six outputs with the Lean model; "
@@ -24,7 +25,9 @@ CLAIM = {
     "text": "Lean theorems over R for the three families: covariance(X*) = K** - A^T A with L A = K_b* (the formula "
             "K** - K*b (L L^T)^-1 Kb*), it is symmetric, its diagonal is covariance(X*, diag=True), each variance is at most "
             "the prior variance k(x,x); mean_covariance = (K*b W)(K*b W)^T is symmetric positive semi-definite "
-            "(unconditionally) and W solves (L L^T) W = input factor (full) resp. L^T W = diag(std) (latent), i.e. it is the "
+            "(unconditionally) and W solves (L L^T) W = input factor (full) resp. L^T W = diag(std) (latent) resp. the DTC system of "
+            "the weights with the input factor as right-hand side (dtc_W_solves; per-cell sigma vector: (Kuu + jitter I + Kuf D^-1 "
+            "Kfu) W = Kuf D^-1/2, D = diag(max(sigma_i^2, jitter)), so W W^T = M D M^T, dtc_percell_W_solves), i.e. it is the "
             "linear propagation of the stated input covariance through the mean; uncertainty is exactly the sum; predictors "
             "built without uncertainty refuse. Tied to /repo by comparing covariance / mean_covariance / uncertainty "
             "(diag and full) of the 9 classes with the model driver and by independent oracles (eigvalsh, refit with shifted "
@@ -173,6 +176,13 @@ def run_case(ctx, res, p):
             Y = np.asarray(p["Y"], float)
             if p.get("std") is not None:
                 Fm = np.asarray(p["Lest"], float) * np.asarray(p["std"], float)[None, :]
+            elif fam == "lm" and np.ndim(sigma) == 1:
+                # DTC with a per-cell sigma vector: the observations carry the noise D = diag(max(sigma_i^2, jitter)) the
+                # conditional mean is built with (the vector is floored at the jitter), so mean_covariance = J D J^T with
+                # J the linear map from the values to the predicted mean
+                sv = np.asarray(sigma, float)
+                Fm = np.diag(np.sqrt(np.where(sv ** 2 < jitter, jitter, sv ** 2)))
+                res.count("lm:per-cell-sigma:" + ("m<n" if nb < n else "m=n" if nb == n else "m>n"))
             else:
                 Fm = np.diag(np.broadcast_to(np.asarray(sigma, float), (n,)))   # the noise acts on the n observations
             cols = [Fm[:, k] for k in range(Fm.shape[1])]
@@ -312,9 +322,11 @@ def gen_case(rng, stream):
             std = np.exp(rng.uniform(-3, 0, size=r))
         else:
             source = ["sigma-scalar", "sigma-vector"][rng.integers(2)]
-            if family == "lm" and source == "sigma-vector":
-                # a vector sigma is sized by the landmarks for the m x m system and by the cells for W: needs m == n
-                Xu = X[rng.permutation(n)].copy() + (0.05 * rng.normal(size=X.shape) if variant != "time" else 0)
+            if family == "lm" and source == "sigma-vector" and rng.random() < 0.3:
+                # a sigma vector is the noise of the CELLS for every number of landmarks (m = 4, 8, 11 above); here the
+                # cells themselves, reordered (and slightly moved), are the landmarks
+                Xu = X[rng.permutation(n)].copy() + ((0.05 * rng.normal(size=X.shape) if rng.random() < 0.5 else 0)
+                                                     if variant != "time" else 0)
                 Xu_sub = None
             nb = n
             sigma = loguniform(rng, 0.05, 1.0) if source == "sigma-scalar" else np.exp(rng.uniform(-3, 0, size=nb))
